@@ -117,6 +117,34 @@ def check(rep, an, tier):
                                   "vertex of the chromaticity hull disappears, so the metric is not invariant to the intensity of individual rows")
                 if metric == "width":
                     shared_generator(rep, res, entry)
+    # ---- no seed given (the default): 'equals 1 relative to itself' still needs numerator and denominator to share their projections
+    for ctn in (False, True):
+        Xv = arr("X", S("M", "F"), {"u": 1}, sign="NONNEG")
+        sd = none()
+        sd.data = frozenset({"seed"})
+        kw = dict(X=Xv, at_l1=none(), relative_to=arr("relative_to", S("R", "F"), {"u": 1}, sign="NONNEG"),
+                  center_to_neutral=flag("center_to_neutral", ctn), metric=strv("metric", "width"), center=flag("center", True), seed=sd)
+        res = an.run(f"{MET}:compute_gamut", kws=kw, config=cfgname(dict(metric="width", relative_to="given", ctn=ctn, seed=None)))
+        n_ = 0
+        for ev in res.events("call"):
+            fn = ev.d["callee"]
+            if fn.name not in ("compute_mean_width", "compute_gamut") or len(ev.path) != 1:
+                continue
+            bound = dict(ev.d["kws"])
+            star = bound.pop("**", None)
+            if star is not None and star.tag("kw"):
+                bound.update(star.tag("kw"))
+            for i, a in enumerate(ev.d["args"]):
+                if i < len(fn.params):
+                    bound.setdefault(fn.params[i], a)
+            sv = bound.get("seed")
+            st = None if sv is None else not (sv.known and sv.const is None)
+            n_ += 1
+            rep.check("R-SEED", "without a seed numerator and denominator still draw identical projections", st, where=ev.loc,
+                      construct=f"seed handed to {fn.name} when seed=None", entry="compute_gamut", config=res.config,
+                      msg="with seed=None (the default) `None` itself is forwarded to both metric evaluations: each creates its own unseeded "
+                          "generator, the Monte-Carlo errors of numerator and denominator are independent and the metric of a cloud relative "
+                          "to itself is not 1 (one seed has to be drawn once and shared)")
     # ---- Jensen–Shannon: separate normalisation of both inputs
     P, Q = arr("P", S("M"), {"u": 1}, sign="NONNEG"), arr("Q", S("M"), {"v": 1}, sign="NONNEG")
     res = an.run(f"{MET}:compute_jensen_shannon_divergence", kws=dict(P=P, Q=Q), config="P:[u],Q:[v]")
@@ -181,6 +209,15 @@ def check(rep, an, tier):
                       "affine dimension collapses and the volume is no longer homogeneous in scale")
     for ev in res.events("ext_call"):
         if ev.d["dotted"].endswith("decomposition.PCA") or ev.d["dotted"].endswith(".PCA"):
+            nc = ev.d["kws"].get("n_components") or (ev.d["args"][0] if ev.d["args"] else None)
+            if nc is not None and not nc.known:
+                syms = set(nc.tag("dim_syms") or ()) | (set(nc.tag("dim")) if isinstance(nc.tag("dim"), tuple) else set())
+                st_ = None if not syms else (("M" in syms) and nc.tag("bounded_by") == "min")
+                rep.check("R-SHAPE", "the number of principal components is bounded by the number of points", st_, where=ev.loc,
+                          construct=ev.text(), entry="proj_P_for_hull", config=res.config,
+                          msg="the number of components requested from PCA is computed from the ambient dimension only: a flat cloud with fewer "
+                              "points than that (a triangle in 5-D, a segment in 4-D) makes PCA raise ValueError — no volume is returned for a "
+                              "hull that has a well-defined extent within its affine span")
             w = ev.d["kws"].get("whiten")
             st = True if (w is None or (w.known and not w.const)) else (False if (w.known and w.const) else None)
             rep.check("R-QTY", "the projection onto the affine span is an isometry", st, where=ev.loc, construct=ev.text(), entry="proj_P_for_hull",
